@@ -121,13 +121,15 @@ fn table(args: &[String]) {
         }
         let _ = tx.send(());
     });
-    if rx.recv_timeout(Duration::from_secs(3)).is_err() {
+    if rx.recv_timeout(Duration::from_secs(10)).is_err() {
         println!("hang=1");
         std::process::exit(0);
     }
 }
 
 pub fn gck(args: &[String]) {
+    // the panic message travels in the payload; symbolising a backtrace of this binary can take seconds
+    std::panic::set_hook(Box::new(|_| {}));
     let sub = args[0].as_str();
     let nums = |from: usize| -> Vec<usize> { args[from..].iter().map(|s| num(s)).collect() };
     match sub {
